@@ -162,6 +162,8 @@ def tlc(module, cfg, metadir, workers=8, env=None, timeout=1800, extra=(), cover
     m = re.search(r"Error: (.*)", out)
     if m:
         res["error"] = m.group(1)
+    m = re.search(r"depth of the complete state graph search is (\d+)", out)
+    res["depth"] = int(m.group(1)) if m else 0
     return res
 
 
@@ -254,7 +256,7 @@ def validate_traces(chk, trace_file, curve, flags=None, jobs=12, max_rejects=5, 
             chk.cov["transitions"] += r["states"]
             if r["timeout"]:
                 raise ToolError("TLC timed out validating a trace chunk")
-            if r["error"] is None and r["states"] == nev + 1:
+            if r["error"] is None and r["depth"] == nev + 1:
                 accepted += len(ch)
                 continue
             # locate the offending run
@@ -264,7 +266,7 @@ def validate_traces(chk, trace_file, curve, flags=None, jobs=12, max_rejects=5, 
                 idx = int(m.group(1))
             elif inv:
                 # invariant violated in the state reached after consuming (depth-1) events
-                idx = max(1, r["states"] - 1)
+                idx = max(1, r["depth"] - 1)
             else:
                 log(r["out"][-3000:])
                 raise ToolError("TLC failed while validating a trace: %s" % r["error"])
@@ -397,3 +399,18 @@ def report_rejects(chk, rejects, what):
                       {"curve": rj["curve"], "flags": rj["flags"], "reason": rj["reason"],
                        "event_index_in_run": rj["event_index_in_run"], "event": rj["event"], "trace": rj["run"]},
                       "%s: event %d (%s) of run %s: %s" % (rj["curve"], rj["event_index_in_run"], rj["event"].get("ev"), rid, rj["reason"]))
+
+
+def toy_traces(chk, curve, kind, n, flags, what, cfgname="Trace", name=None, progs=None, seed_off=0):
+    """generate (or take) programs, run them on a toy curve, validate the trace against the specification"""
+    name = name or "%s_%s" % (kind, curve)
+    if progs is None:
+        progs = genprogs(chk, chk.seed + seed_off, n, TOY_P[curve], kind, name)
+    tp, sums = record(chk, curve, progs, name)
+    acc, rej = validate_traces(chk, tp, curve, flags=flags, cfgname=cfgname)
+    report_rejects(chk, rej, what)
+    for p, s_ in zip(progs, sums):
+        chk.count_case([curve, p["p"], p.get("v"), p.get("tamper")], nontrivial=len(p["p"]["ops"]) > 0)
+    if progs:
+        chk.sample({"curve": curve, "program": progs[min(3, len(progs) - 1)], "outcome": sums[min(3, len(sums) - 1)]})
+    return progs, sums, rej
